@@ -122,6 +122,7 @@ func runMarshal(c *core.Case) {
 	for k := 0; k < 3; k++ {
 		v := f.NewValue(t)
 		want := ttypes.TreeOf(v)
+		marshaled := map[string][]byte{}
 		for _, p := range Protocols {
 			c.Journal("marshal|" + p.name)
 			var b []byte
@@ -174,6 +175,34 @@ func runMarshal(c *core.Case) {
 			} else {
 				c.Count("marshal.content-exact", 1)
 			}
+			marshaled[p.name] = b
+		}
+		// 3. one Encoder taken through Reset from protocol to protocol writes what Marshal wrote
+		var enc *thrift.Encoder
+		for i := 0; i < 4; i++ {
+			p := Protocols[(k+2*i+c.Index)%3]
+			mb, ok := marshaled[p.name]
+			if !ok {
+				break
+			}
+			buf := new(bytes.Buffer)
+			if enc == nil {
+				enc = thrift.NewEncoder(p.p.NewWriter(buf))
+			} else {
+				enc.Reset(p.p.NewWriter(buf))
+			}
+			var err error
+			if sig, stk := core.Guard(func() { err = enc.Encode(v.Interface()) }); sig != "" || err != nil {
+				c.Violation("marshal|reset|"+p.name, "failed:"+sig, fmt.Sprintf("an Encoder Reset to %s failed on %s: %v %s", p.name, show(v), err, stk), nil)
+				break
+			}
+			b := buf.Bytes()
+			got, used, perr := p.parse(b, root)
+			if perr != nil || used != len(b) || tspec.Canon(got) != tspec.Canon(want) || (!tspec.HasUnordered(want) && !bytes.Equal(b, mb)) {
+				c.Violation("marshal|reset|"+p.name, "not-the-specified-bytes", fmt.Sprintf("an Encoder Reset to a %s writer (step %d) wrote %x, Marshal wrote %x for %s (specification reader: err=%v, consumed %d of %d)", p.name, i, tr(b), tr(mb), show(v), perr, used, len(b)), nil)
+				break
+			}
+			c.Count("marshal.reset-exact", 1)
 		}
 		c.Distinct(core.Mix(core.HashString(t.String()), core.HashString(tspec.Canon(want))), root != tspec.STRUCT || len(want.Fields) > 0)
 		c.Sample(len(want.Fields), map[string]any{"sub": "marshal", "type": ttypes.TypeString(t), "value": show(v)})
@@ -249,6 +278,24 @@ func runAlternatives(c *core.Case) {
 				continue
 			}
 			c.Count("accepted."+a.name, 1)
+			// the same bytes through a Decoder in strict mode: every field is declared and of the
+			// declared type, so strictness has nothing to object to
+			sout := reflect.New(t)
+			dec := thrift.NewDecoder(p.p.NewReader(bytes.NewReader(append([]byte(nil), enc...))))
+			dec.SetStrict(true)
+			if sig, stk := core.Guard(func() { err = dec.Decode(sout.Interface()) }); sig != "" {
+				c.Violation(cls+"|strict", sig, fmt.Sprintf("strict Decode(%s) of the conformant encoding %x panicked: %s", p.name, tr(enc), stk), nil)
+				continue
+			}
+			if err != nil {
+				c.Violation(cls+"|strict", "rejected", fmt.Sprintf("a strict Decoder (%s) rejects the conformant encoding %x of %s: %v", p.name, tr(enc), show(v), err), w)
+				continue
+			}
+			if ok, d := ttypes.Equal(v, sout.Elem()); !ok {
+				c.Violation(cls+"|strict", "value-diff", fmt.Sprintf("%s | strict Decoder, conformant encoding %x | want %s | got %s", d, tr(enc), show(v), show(sout.Elem())), w)
+				continue
+			}
+			c.Count("accepted-strict."+a.name, 1)
 		}
 	}
 	c.Distinct(core.Mix(core.HashString(t.String()), core.HashString(tspec.Canon(want))), len(want.Fields) > 0)
@@ -526,7 +573,7 @@ func runMessages(c *core.Case) {
 func init() {
 	core.Register(&core.Monitor{
 		Prop:    "C13",
-		Rule:    "marshal: struct types built at run time (0-70 fields, ids in seven layouts incl. gaps > 15 and ranges > 64, required/optional/enum, every supported field type incl. nested and pointer-to structs, lists, sets, maps) x 3 values x {binary strict, binary non-strict, compact}: the bytes of Marshal must be understood by a strict reader written from the two specification documents, with exactly the logical content of the value (field ids, type codes, values; sets/maps as multisets), and be byte-identical to the reference encoder when no set/map has more than one entry (same length otherwise). A difference is classified by the construct at the first differing byte. alternatives: every conformant spelling of the same content (fields in another order; compact: long field headers, long list headers, BOOL element type 1, all at once) must be accepted by Unmarshal with the same value. writer-calls: sequences of 1-12 Writer calls (every method; field headers as stop / delta / absolute; list, set, map headers around the 14/15 boundary; message headers) must write the specified bytes call by call, and the Reader must return the same values and consume exactly those bytes. messages: strict and non-strict binary headers are read by both binary readers, the compact header by the compact reader.",
+		Rule:    "marshal: struct types built at run time (0-70 fields, ids in seven layouts incl. gaps > 15 and ranges > 64, required/optional/enum, every supported field type incl. nested and pointer-to structs, lists, sets, maps) x 3 values x {binary strict, binary non-strict, compact}: the bytes of Marshal must be understood by a strict reader written from the two specification documents, with exactly the logical content of the value (field ids, type codes, values; sets/maps as multisets), and be byte-identical to the reference encoder when no set/map has more than one entry (same length otherwise); one Encoder taken through Reset across the three protocols must write the same bytes. A difference is classified by the construct at the first differing byte. alternatives: every conformant spelling of the same content (fields in another order; compact: long field headers, long list headers, BOOL element type 1, all at once) must be accepted by Unmarshal, and by a Decoder in strict mode, with the same value. writer-calls: sequences of 1-12 Writer calls (every method; field headers as stop / delta / absolute; list, set, map headers around the 14/15 boundary; message headers) must write the specified bytes call by call, and the Reader must return the same values and consume exactly those bytes. messages: strict and non-strict binary headers are read by both binary readers, the compact header by the compact reader.",
 		Trusted: []string{"harness/gen/tspec: encoders and strict parsers transcribed from thrift-binary-protocol.md and thrift-compact-protocol.md (type codes, endianness, zig-zag varints, header forms); no other Thrift implementation is available offline", "harness/gen/ttypes.TreeOf: the documented Go-to-thrift mapping (TypeOf, struct tags, zero/nil omission)"},
 		Subs: []core.Sub{
 			{Name: "marshal", N: core.Const(8000, 300000), Run: runMarshal},
